@@ -1387,6 +1387,161 @@ def merge_map(a):
         a.candidates.append(c)
 
 
+def command_dispatch(a):
+    """C06 / C07: between clap and the subcommand nothing is decided. CfnGuard::execute hands its command, writer and reader to
+    Commands::execute; Commands::execute calls exactly ONE subcommand's execute - the one of the variant held - with the same writer /
+    reader and returns that call's result itself (no mapping of the code, no swallowed Err)."""
+    CM = enum_variants(a.src, "commands/mod.rs", "Commands")
+    want = {"Validate": r"commands::validate::|Validate", "Test": r"commands::test::|Test", "ParseTree": r"parse_tree|ParseTree",
+            "Rulegen": r"rulegen|Rulegen", "Completions": r"completions|Completions"}
+    for label, fre, argre in (("Commands", r"commands::<impl at guard/src/commands/mod\.rs:\d+:\d+: \d+:\d+>::execute", r"_1: &Commands"),
+                              ("CfnGuard", r"commands::<impl at guard/src/commands/mod\.rs:\d+:\d+: \d+:\d+>::execute", r"_1: &CfnGuard")):
+        ex = a.exec(fre, {"execute": m_result_opq}, log=("execute",), unroll=1, max_paths=200, first_arg_re=argre)
+        a.fns.append(f"commands::{label}::execute")
+        me, wr, rd = ex.arg_env["_1"], ex.arg_env["_2"], ex.arg_env["_3"]
+        d_me = disc(ex, me) if label == "Commands" else None
+        bad, n = [], 0
+        for p in ex.paths:
+            r = p.ret
+            cs = calls(p, "execute")
+            if p.outcome == "panic" or len(cs) != 1 or r != cs[0][3]:
+                bad.append(pc_term(p.pc))
+                continue
+            n += 1
+            e = cs[0]
+            args, callee = e[2], (e[5] if len(e) > 5 else "")
+            if label == "CfnGuard":
+                o = origin(ex, args[0]) if args else (None, [])
+                good = len(args) == 3 and same(o[0], me) and len(o[1]) == 1 and same(args[1], wr) and same(args[2], rd)
+                bad.append(f"(and {pc_term(p.pc)} (not {'true' if good else 'false'}))")
+                continue
+            # which variant does this callee belong to? (the type of the receiver in the callee's path)
+            which = [v for v in CM if re.search(want.get(v, v), callee)]
+            o = origin(ex, args[0]) if args else (None, [])
+            passes = (len(args) == 1) if which == ["Completions"] else (len(args) == 3 and same(args[1], wr) and same(args[2], rd))
+            if len(which) != 1 or not same(o[0], me) or not passes:
+                bad.append(pc_term(p.pc))
+                continue
+            bad.append(f"(and {pc_term(p.pc)} (not (= {d_me} {CM.index(which[0])})))")
+            if o[1] != [f"as {which[0]}.0"]:
+                bad.append(pc_term(p.pc))
+        c = a.discharge(f"commands/{label}::execute/dispatch", ex, bad,
+                        f"{label}::execute ({n} calls over all paths): exactly one execute call, of the subcommand held (variant "
+                        "discriminant = the callee's own command type), on the payload of that variant, with the writer / reader "
+                        "given; the function returns that call's Result itself - exit code and Err unchanged")
+        if c:
+            c["replay"] = replay_command_codes(a)
+            c["reproduced"] = c["replay"].get("reproduced", False)
+            a.candidates.append(c)
+
+
+def replay_command_codes(a):
+    """exit codes of the subcommands seen from the process: validate PASS 0 / FAIL 19 / parse error 5, test pass 0 / fail 7,
+    parse-tree 0, rulegen 0, completions 0"""
+    import os, shutil, subprocess, tempfile
+    exe = a.cli()
+    if not exe:
+        return {"reproduced": False, "note": "native build failed"}
+    d = tempfile.mkdtemp(prefix="cfnverif_replay_")
+    out = []
+    try:
+        W = lambda n, t: (open(os.path.join(d, n), "w").write(t), os.path.join(d, n))[1]
+        rp = W("p.guard", "rule r { a == 1 }\n"); bad = W("bad.guard", "rule r { a == }\n")
+        ok = W("ok.json", "{\"a\": 1}"); ko = W("ko.json", "{\"a\": 2}")
+        tp = W("tp.yaml", "- name: t\n  input: {a: 1}\n  expectations:\n    rules:\n      r: PASS\n")
+        tf = W("tf.yaml", "- name: t\n  input: {a: 1}\n  expectations:\n    rules:\n      r: FAIL\n")
+        tpl = W("tpl.json", "{\"Resources\": {\"b\": {\"Type\": \"AWS::S3::Bucket\", \"Properties\": {\"BucketName\": \"x\"}}}}")
+        cases = [(["validate", "-r", rp, "-d", ok], 0), (["validate", "-r", rp, "-d", ko], 19), (["validate", "-r", bad, "-d", ok], 5),
+                 (["validate", "-r", rp, "-d", ok, "--structured", "-o", "json", "--show-summary", "none"], 0),
+                 (["validate", "-r", rp, "-d", ko, "--structured", "-o", "json", "--show-summary", "none"], 19),
+                 (["test", "-r", rp, "-t", tp], 0), (["test", "-r", rp, "-t", tf], 7),
+                 (["parse-tree", "-r", rp], 0), (["rulegen", "-t", tpl], 0), (["completions", "-s", "bash"], 0)]
+        for argv, want in cases:
+            r = subprocess.run([exe] + argv, capture_output=True, text=True, timeout=60)
+            if r.returncode != want:
+                out.append({"argv": [x.replace(d + "/", "") for x in argv], "exit": r.returncode, "expected": want, "stderr": r.stderr[-200:]})
+    finally:
+        shutil.rmtree(d, ignore_errors=True)
+    return {"reproduced": bool(out), "mismatches": out, "cases": 10}
+
+
+def validate_params_reach_every_evaluation(a):
+    """C17 / C07: the merged input parameters (`extra_data` of Validate::execute) are what EVERY evaluation of this run is given - the
+    plain per-rules-file call of evaluate_rule and the StructuredEvaluator, for rules given as files and as a --payload alike. One
+    region per call site, started at the site's block with `extra_data` an opaque value E: the parameter argument of the call (the
+    `input_params` field of the evaluator built there) must be E itself - not None, not another local."""
+    fre = r"commands::validate::<impl at guard/src/commands/validate\.rs:\d+:\d+: \d+:\d+>::execute"
+    text = mirsmt.find_fn(a.mir, fre)
+    hdr, locs, blocks = mirsmt.parse_fn(text)
+    m = re.search(r"debug extra_data => (_\d+);", text)
+    sites = [(bb, "evaluate_rule") for bb, sts in blocks.items() if any(re.search(r"= evaluate_rule\(", st) for st in sts)]
+    sites += [(bb, "evaluate") for bb, sts in blocks.items() if any(re.search(r"StructuredEvaluator.*::evaluate\(", st) for st in sts)]
+    if not m or not sites:
+        raise Untranslatable("Validate::execute: no `extra_data` local / no evaluation call site")
+    xd = m.group(1)
+    a.fns.append("commands::validate::Validate::execute (parameters handed to every evaluation site)")
+    for bb, fn in sites:
+        mm = dict(mirexec.COMMON_MODELS)
+        mm.update({"evaluate_rule": m_result_code, "evaluate": m_result_code, "next": mirexec.m_option, "write_err": mirexec.m_result_unit})
+        ex = mirexec.Exec(text, a.enums, mirsmt.consts_of(a.mir), mm, {"evaluate_rule", "evaluate"}, unroll=1, mir=a.mir, max_paths=20000)
+        E = ex.opq()
+        ex.run_from(bb, stop_blocks={bb}, init_env={xd: E})
+        a.npaths += len(ex.paths)
+        bad, n = [], 0
+        for p in ex.paths:
+            cs = [e for e in p.events if e[0] == "call" and e[1] in ("evaluate_rule", "evaluate")]
+            if not cs:
+                bad.append(pc_term(p.pc))
+                continue
+            e = cs[0]
+            n += 1
+            if fn == "evaluate_rule":
+                got = e[2][2] if len(e[2]) == 9 else None
+            else:
+                s = e[2][0] if e[2] else None
+                got = s[2].get("input_params") if (s and s[0] == "struct" and isinstance(s[2], dict)) else None
+            bad.append(f"(and {pc_term(p.pc)} (not {'true' if same(got, E) else 'false'}))")
+        c = a.discharge(f"Validate::execute/{bb}/{fn}/parameters-handed-on", ex, bad,
+                        f"Validate::execute, call site {bb} of {fn} ({n} calls over the paths of the region): the input parameters the "
+                        "evaluation is given are the run's merged parameters (the local `extra_data`) themselves")
+        if c:
+            c["replay"] = replay_params_every_entry(a)
+            c["reproduced"] = c["replay"].get("reproduced", False)
+            a.candidates.append(c)
+
+
+def replay_params_every_entry(a):
+    """a rule that needs a key defined only by the -i file: same exit code (0) for rules / data given by path, as a --payload, each
+    plain and --structured; and a key defined by both the parameters and the data is an error in all four"""
+    import json, os, shutil, subprocess, tempfile
+    exe = a.cli()
+    if not exe:
+        return {"reproduced": False, "note": "native build failed"}
+    d = tempfile.mkdtemp(prefix="cfnverif_replay_")
+    out = []
+    try:
+        W = lambda n, t: (open(os.path.join(d, n), "w").write(t), os.path.join(d, n))[1]
+        rule = "rule r { Port == 3306 }\n"
+        r, p = W("r.guard", rule), W("p.yaml", "Port: 3306\n")
+        for label, doc, want_ok in (("disjoint", "{\"Name\": \"db\"}", True), ("conflict", "{\"Port\": 3306}", False)):
+            dj = W(f"{label}.json", doc)
+            pay = json.dumps({"rules": [rule], "data": [doc]})
+            runs = {"paths": ([exe, "validate", "-r", r, "-d", dj, "-i", p], None),
+                    "paths --structured": ([exe, "validate", "-r", r, "-d", dj, "-i", p, "--structured", "-o", "json", "--show-summary", "none"], None),
+                    "payload": ([exe, "validate", "--payload", "-i", p], pay),
+                    "payload --structured": ([exe, "validate", "--payload", "-i", p, "--structured", "-o", "json", "--show-summary", "none"], pay)}
+            for k, (argv, stdin) in runs.items():
+                x = subprocess.run(argv, input=stdin, capture_output=True, text=True, timeout=60)
+                okrun = (x.returncode == 0) if want_ok else (x.returncode not in (0, 19))
+                if not okrun:
+                    out.append({"case": label, "entry": k, "exit": x.returncode,
+                                "expected": "0 (the rule passes on the union document)" if want_ok else "an error exit (key defined twice)",
+                                "stdout": x.stdout[-200:], "stderr": x.stderr[-200:]})
+    finally:
+        shutil.rmtree(d, ignore_errors=True)
+    return {"reproduced": bool(out), "mismatches": out, "cases": 8}
+
+
 def merge_list(a):
     """C17 `nothing is lost`: the list / list arm of PathAwareValue::merge. Two lists merge into the receiver's own vector extended,
     once, by the second list's own vector (all of it, in its order: Vec::extend is std's); nothing else is stored or dropped and the
@@ -4967,9 +5122,9 @@ def replay_junit_wellformed(a):
 
 
 SITES = {
-    "C06": [structured_report, structured_parse_closure, junit_exit_code, junit_test_case, junit_report, validate_execute_step, test_generic_report, test_result_exit_code, test_exit_code_domain, test_structured_evaluate],
+    "C06": [command_dispatch, structured_report, structured_parse_closure, junit_exit_code, junit_test_case, junit_report, validate_execute_step, test_generic_report, test_result_exit_code, test_exit_code_domain, test_structured_evaluate],
     "C12": [rules_files_all_evaluated, sarif_per_file_results, structured_report, junit_test_case, junit_report, data_input_wiring, data_input_params_wiring, structured_merge_closure, test_get_by_result, test_structured_evaluate, report_combine_union],
-    "C07": [flags_verdict_wiring, reporter_chain, library_entry_wiring, sarif_one_result_per_message, sarif_per_file_results, rules_files_all_evaluated, junit_escaping_sites, report_combine_union, structured_report, junit_test_case, junit_report, validate_execute_step,
+    "C07": [command_dispatch, validate_params_reach_every_evaluation, flags_verdict_wiring, reporter_chain, library_entry_wiring, sarif_one_result_per_message, sarif_per_file_results, rules_files_all_evaluated, junit_escaping_sites, report_combine_union, structured_report, junit_test_case, junit_report, validate_execute_step,
             data_input_params_wiring, structured_merge_closure],
     "C16": [test_generic_report, test_get_by_result, test_get_by_rules, test_structured_evaluate, test_result_exit_code, test_junit_counts, test_junit_case_marks, test_data_per_spec],
     "C02": [param_ctx_end_record, scope_delegations, param_rule_call, rule_status_semantics],
@@ -4979,6 +5134,6 @@ SITES = {
     "C03": [param_rule_call],
     "C04": [rule_status_semantics, root_scope_rule_table, scope_delegations, scope_resolution],
     "C01": [rule_status_semantics, root_scope_rule_table, scope_discipline, scope_resolution, scope_delegations, variable_tables, param_rule_call, param_ctx_resolve],
-    "C17": [merge_map, merge_list, merge_unwrap, param_files_fold_step, data_input_params_wiring, structured_merge_closure, supported_extension_predicate, walk_dir_unfiltered],
+    "C17": [validate_params_reach_every_evaluation, merge_map, merge_list, merge_unwrap, param_files_fold_step, data_input_params_wiring, structured_merge_closure, supported_extension_predicate, walk_dir_unfiltered],
     "C08": [merge_unwrap, rulegen_unwrap, test_exit_code_domain, report_builder_total_on_unary],
 }
